@@ -97,22 +97,51 @@ fn apply(w: &mut World, op: &Op) -> Result<bool, String> {
         Op::Alias(s, e) => {
             if s >= w.nodes.len() || !live(w, w.nodes[s]) { return Ok(false); }
             if let Ok(n) = w.g.alias_instance_export(w.nodes[s], ALIAS_NAMES[e]) {
+                match w.g.get_alias_source(n) {
+                    Some((src, name)) if src == w.nodes[s] && name == ALIAS_NAMES[e] => {}
+                    other => return Err(format!("alias_instance_export returned a node whose source is {other:?}")),
+                }
                 if !w.nodes.contains(&n) { w.nodes.push(n); }
             }
             Ok(true)
         }
         Op::SetArg(i, a, s) | Op::UnsetArg(i, a, s) => {
             if i >= w.nodes.len() || s >= w.nodes.len() || !live(w, w.nodes[i]) || !live(w, w.nodes[s]) { return Ok(false); }
+            let (inst, src, name) = (w.nodes[i], w.nodes[s], ARG_NAMES[a]);
+            let listed = |g: &CompositionGraph| g.get_instantiation_arguments(inst).any(|(n, x)| n == name && x == src);
+            let listed_any = |g: &CompositionGraph| g.get_instantiation_arguments(inst).any(|(n, _)| n == name);
+            let is_inst = matches!(w.g[inst].kind(), NodeKind::Instantiation(_));
             if matches!(op, Op::SetArg(..)) {
-                let _ = w.g.set_instantiation_argument(w.nodes[i], ARG_NAMES[a], w.nodes[s]);
+                let before_any = listed_any(&w.g);
+                let before = listed(&w.g);
+                match w.g.set_instantiation_argument(inst, name, src) {
+                    Ok(()) => {
+                        if !is_inst { return Err("set_instantiation_argument succeeded on a node that is not an instantiation".into()); }
+                        if !listed(&w.g) { return Err(format!("set_instantiation_argument returned Ok but `{name}` is not listed with that argument node")); }
+                        if before_any && !before { return Err(format!("set_instantiation_argument replaced an argument that was already passed (`{name}`)")); }
+                    }
+                    Err(_) => {
+                        if listed(&w.g) != before || listed_any(&w.g) != before_any { return Err("a failed set_instantiation_argument changed the arguments".into()); }
+                    }
+                }
             } else {
-                let _ = w.g.unset_instantiation_argument(w.nodes[i], ARG_NAMES[a], w.nodes[s]);
+                match w.g.unset_instantiation_argument(inst, name, src) {
+                    Ok(()) => { if listed(&w.g) { return Err(format!("unset_instantiation_argument returned Ok but `{name}` is still listed with that node")); } }
+                    Err(_) => {}
+                }
             }
             Ok(true)
         }
         Op::Export(s, e) => {
             if s >= w.nodes.len() || !live(w, w.nodes[s]) { return Ok(false); }
-            let _ = w.g.export(w.nodes[s], EXPORT_NAMES[e]);
+            let taken = w.g.get_export(EXPORT_NAMES[e]);
+            match w.g.export(w.nodes[s], EXPORT_NAMES[e]) {
+                Ok(()) => {
+                    if taken.is_some() { return Err(format!("export succeeded although `{}` was already exported", EXPORT_NAMES[e])); }
+                    if w.g.get_export(EXPORT_NAMES[e]) != Some(w.nodes[s]) { return Err("export returned Ok but the name does not map to the node".into()); }
+                }
+                Err(_) => { if w.g.get_export(EXPORT_NAMES[e]) != taken { return Err("a failed export changed the export map".into()); } }
+            }
             Ok(true)
         }
         Op::Unexport(s) => {
@@ -289,7 +318,57 @@ fn main() {
     let w0 = new_world();
     let mut st = Stats { histories: 0, steps: 0, distinct: HashSet::new(), sample: vec![] };
     let mut fail: Option<(Vec<Op>, String)> = None;
-    if let Err(f) = dfs(&w0, depth, &mut vec![], &mut st) { fail = Some(f); }
+    // exhaustive exploration from several start states (so that short suffixes reach set/set/remove patterns)
+    let prefixes: Vec<Vec<Op>> = vec![
+        vec![],
+        vec![Op::Instantiate(0), Op::Instantiate(1), Op::Import(0)],
+        vec![Op::Instantiate(1), Op::Import(0), Op::Alias(0, 0), Op::Define(0), Op::Export(1, 0)],
+    ];
+    for pre in &prefixes {
+        let mut w = w0.clone();
+        let mut hist = vec![];
+        let mut ok = true;
+        for op in pre {
+            hist.push(op.clone());
+            match step(&w, op) {
+                Ok(Some(w2)) => w = w2,
+                Ok(None) => {}
+                Err(e) => { fail = Some((hist.clone(), e)); ok = false; break; }
+            }
+        }
+        if !ok || fail.is_some() { break; }
+        if depth == 0 { if let Err(f) = dfs(&w, 0, &mut hist, &mut st) { fail = Some(f); break; } continue; }
+        // first level sequentially, the subtrees in parallel (16 cores)
+        let mut roots: Vec<(Vec<Op>, World)> = vec![];
+        for op in candidate_ops(&w) {
+            let mut h = hist.clone(); h.push(op.clone());
+            match step(&w, &op) {
+                Ok(Some(w2)) => { st.steps += 1; roots.push((h, w2)); }
+                Ok(None) => {}
+                Err(e) => { fail = Some((h, e)); break; }
+            }
+        }
+        if fail.is_some() { break; }
+        let nthreads = std::thread::available_parallelism().map(|n| n.get()).unwrap_or(4).min(16);
+        let chunks: Vec<Vec<(Vec<Op>, World)>> = (0..nthreads).map(|t| roots.iter().enumerate().filter(|(i, _)| i % nthreads == t).map(|(_, r)| r.clone()).collect()).collect();
+        let results: Vec<(Stats, Option<(Vec<Op>, String)>)> = std::thread::scope(|sc| {
+            let hs: Vec<_> = chunks.into_iter().map(|chunk| sc.spawn(move || {
+                let mut st = Stats { histories: 0, steps: 0, distinct: HashSet::new(), sample: vec![] };
+                let mut fail = None;
+                for (mut h, w2) in chunk {
+                    if let Err(f) = dfs(&w2, depth - 1, &mut h, &mut st) { fail = Some(f); break; }
+                }
+                (st, fail)
+            })).collect();
+            hs.into_iter().map(|h| h.join().unwrap()).collect()
+        });
+        for (s2, f2) in results {
+            st.histories += s2.histories; st.steps += s2.steps; st.distinct.extend(s2.distinct);
+            if st.sample.len() < 3 { st.sample.extend(s2.sample.into_iter().take(1)); }
+            if fail.is_none() { fail = f2; }
+        }
+        if fail.is_some() { break; }
+    }
     // random longer histories (xorshift, seeded)
     let mut x = seed.wrapping_mul(0x9E3779B97F4A7C15) ^ 0xD1B54A32D192ED03;
     let mut rnd = || { x ^= x << 13; x ^= x >> 7; x ^= x << 17; x };
